@@ -206,6 +206,24 @@ def run(tier, seed):
                 path = native.write_replay("C08", "c08", "model", [], {"engine": "smt", "mode": "model-only", "obligation": ob["harness"], "message": ob["message"], "model": ob.get("counterexample")})
                 ob["replay_path"] = path
                 ob["replay"] = {"path": path, "outcome": "model-only", "message": "emission sequence of the installation"}
+    # the byte stream of the transfer on the receiving node
+    from . import c08stream
+    sob = c08stream.run(tier, seed)
+    if not os.environ.get("VERIF_NO_NATIVE"):
+        if sob.get("verdict") == "violation":
+            rr = native_scenarios("C08", "violation", ["install_after_interrupted_longer_transfer"], sob["message"], {"obligation": sob["harness"], "model": sob.get("counterexample")})
+            sob["replay_path"] = rr["path"]
+            if rr["outcome"] == "reproduced":
+                sob["replay"] = {"path": rr["path"], "outcome": rr["outcome"], "message": rr["message"]}
+                sob["message"] = "%s [real node, through RaftStorage::create_snapshot / finalize_snapshot_installation: %s]" % (sob["message"], rr["message"][:300])
+            else:
+                sob["replay"] = {"path": rr["path"], "outcome": "model-only", "message": "the fixed node scenario (interrupted longer transfer, then a complete one) does not show it: %s" % rr["message"][:200]}
+        elif sob.get("verdict") == "discharged":
+            nv = native_scenarios("C08", "validate", ["install_after_interrupted_longer_transfer"])
+            info["translator_validation_stream"] = {"outcome": nv["outcome"], "message": nv["message"], "path": nv["path"]}
+            if nv["outcome"] != "passed":
+                sob.update({"verdict": "inconclusive", "message": "the obligation is discharged but a real node keeps bytes of an interrupted transfer: %s" % nv["message"]})
+    obligations.append(sob)
     info["wall_s"] = round(time.time() - t0, 1)
     return {"obligations": obligations, "info": info}
 
